@@ -109,7 +109,7 @@ func clientGoroutines() map[string]int {
 func RunClose(e *Env) {
 	R := e.R
 	R.Rule = "grid (seeded sample in quick): send buffer {0,1,4,64} x node states (connected, never connected = refused, server killed = reconnecting) x in-flight calls of every kind (handlers that never answer; streaming correctables whose reply channel is full because the quorum function is busy) x strike point of Close placed with hooks " +
-		"(idle, enq.registered = queued, snd.dequeued, snd.beforeWrite = being written, awaiting reply, rec.backoff = receiver asleep in back-off, rcv.beforeRoute / rcv.afterRoute = receiver has another call's reply in hand) x {one Close, 2-8 concurrent Closes, Close twice}; plus Close racing with NewConfiguration on a manager whose 3-5 nodes were registered with AddNode in descending id order; servers run in a child process so that every goroutine with a grpc/gorums frame in the client process belongs to the manager; " +
+		"(idle, enq.registered = queued, snd.dequeued, snd.beforeWrite = being written, awaiting reply, rec.backoff = receiver asleep in back-off, rcv.beforeRoute / rcv.afterRoute = receiver has another call's reply in hand) x {one Close, 2-8 concurrent Closes, Close twice}; plus Close racing with NewConfiguration on a manager whose 3-5 nodes were registered with AddNode in descending id order, and Close striking while NewConfiguration is dialling a new node (dial held by a gate in the dialer until Close has returned, or released just after Close was called); servers run in a child process so that every goroutine with a grpc/gorums frame in the client process belongs to the manager; " +
 		"oracle after Close returned: every in-flight call returns (hang rule); calls of every kind issued afterwards with context.Background() and with a deadline return or complete, without panic; no client goroutine with a grpc/gorums frame survives (polled up to W, baseline taken before the manager was created); " +
 		"the server child reports no live stream; no panic from repeated or concurrent Close; distinct = grid point"
 	R.Assume("tarpit node state (accept, never speak HTTP/2) is left to the thorough tier: creating a configuration against it takes gRPC's 20 s minimum connect timeout")
@@ -162,6 +162,16 @@ func RunClose(e *Env) {
 			break
 		}
 		runCloseAddNodeCase(e, rep, 3+rep%3, []uint{0, 4}[rep%2])
+	}
+	// Close racing with the dial of a node that NewConfiguration is adding
+	for rep := 0; rep < e.Pick(12, 160); rep++ {
+		if e.Of > 1 && rep%e.Of != e.Batch {
+			continue
+		}
+		if R.NumViolations() > 8 {
+			break
+		}
+		runCloseDialGateCase(e, rep, []uint{0, 4}[rep%2], rep%3 == 2)
 	}
 	if e.Batch == 0 {
 		// every manager option: a manager created with WithNoConnect must close like any other
